@@ -269,10 +269,22 @@ class Gen:
         return rng.choice(opts)
 
     # ---- one case ----
-    def case(self, malformed):
-        w, rng = self.world(), self.rng
+    def fixed_identity_case(self):
+        """corpus case:  {(a & b): (a & b), a: c}  applied to  (a & b) | a   must give  (a & b) | c"""
+        w = self.world()
         em = w.em
-        flavor = rng.choice(["mixed", "nested", "binder", "binder", "leaf", "chain", "equiv", "not", "capture", "capture", "quant", "absent"])
+        a = em.FluentExp([f for f in w.fluents if f.name == "b0"][0])
+        b = em.ParameterExp([p for p in w.params if p.name == "pb"][0])
+        c = em.FluentExp([f for f in w.fluents if f.name == "b1"][0], (em.ObjectExp(w.objs[w.T0][0]),))
+        ab = em.And(a, b)
+        return {"raw": False, "w": w, "e": em.Or(ab, a), "entries": [(ab, ab), (a, c)], "shapes": ["identity:identity", "nested:plain"],
+                "flavor": "identity", "free": [], "bound": [], "malformed": False, "bad_kinds": []}
+
+    def case(self, malformed, w=None, flavor=None, history=False):
+        w, rng = w or self.world(), self.rng
+        em = w.em
+        flavor = flavor or rng.choice(["mixed", "nested", "binder", "binder", "leaf", "chain", "equiv", "not", "capture", "capture",
+                                       "quant", "absent", "identity"])
         need_q = flavor in ("binder", "capture", "quant") or rng.random() < 0.3
         e = None
         for _attempt in range(25):
@@ -321,10 +333,30 @@ class Gen:
         quants = [(x, b) for x, b in occ if is_quant(x)]
         leaves = [(x, b) for x, b in occ if x.is_parameter_exp() or (x.is_variable_exp() and x.variable() in free)
                   or (x.is_fluent_exp() and all(a.is_object_exp() for a in x.args))]
+        if flavor == "identity":
+            # an identity entry on a compound sub-term K plus 1-2 keys that occur inside K: K's occurrences stay untouched
+            cands = [x for x, _ in compound if [y for y, _ in occurrences(x)[1:] if not y.is_constant()]]
+            if not cands:
+                return None
+            K = rng.choice(cands)
+            inner = [y for y, _ in occurrences(K)[1:] if not y.is_constant()]
+            for _ in range(rng.choice([1, 1, 2])):
+                kk = rng.choice(inner)
+                md = rng.choice(["plain", "const", "equiv", "not" if kk.type.is_bool_type() else "plain"])
+                add(kk, self.retry(lambda: self.value_for(kk, md, scope_free, scope_all, keys)), "inside-identity:" + md)
+            if not entries:
+                return None
+            pos = rng.randint(0, len(entries))
+            keys.insert(pos, K)
+            entries.insert(pos, (K, K))
+            shapes.insert(pos, "identity:identity")
+            nent = max(nent, len(entries)) if rng.random() < 0.5 else len(entries)
         tries = 0
         while len(entries) < nent and tries < 25:
             tries += 1
             f = flavor if rng.random() < 0.7 else "mixed"
+            if f == "identity":
+                f = "mixed"
             k, mode, shape, kb = None, "plain", f, ()
             if f == "mixed":
                 k, kb = rng.choice(nonconst if rng.random() < 0.9 else occ)
@@ -368,6 +400,8 @@ class Gen:
                 k = rng.choice(quants)[0] if quants else rng.choice(compound)[0]
             elif f == "absent":
                 k = self.retry(lambda: w.gen_bool(1, scope_free))
+            if k is None:
+                continue
             kk, kkb = k, kb
             v = self.retry(lambda: self.value_for(kk, mode, scope_free, scope_all, keys, kkb))
             add(k, v, shape + ":" + mode)
@@ -387,8 +421,26 @@ class Gen:
                 bad_kinds.append(kind)
             if not bad_kinds:
                 return None
-        return {"raw": rng.random() < 0.15, "w": w, "e": e, "entries": entries, "shapes": shapes, "flavor": flavor, "free": free, "bound": bound_all,
-                "malformed": malformed, "bad_kinds": bad_kinds}
+        steps = None
+        if history:
+            # in-place mutations of the SAME dict between calls (its size never changes)
+            js = [i for i, sh in enumerate(shapes) if not sh.startswith("identity")]
+            j = rng.choice(js)
+            kj, v0 = entries[j]
+            v1 = None
+            for _ in range(6):
+                cand = self.retry(lambda: self.value_for(kj, rng.choice(["plain", "const", "equiv"]), scope_free, scope_all, keys))
+                if cand is not None and cand is not v0 and kj.type.is_compatible(cand.type):
+                    v1 = cand
+                    break
+            if v1 is None:
+                return None
+            vbad, kind = self.bad_value_for(kj)
+            steps = [("same", j, v0), ("compatible", j, v1), ("same", j, v1), ("incompatible:" + kind, j, vbad), ("compatible", j, v0),
+                     ("compatible", j, v1)]
+            steps = [(a, b, c, rng.random() < 0.5) for a, b, c in steps]       # True: through env.substituter.substitute
+        return {"raw": rng.random() < 0.15 and not history, "w": w, "e": e, "entries": entries, "shapes": shapes, "flavor": flavor,
+                "free": free, "bound": bound_all, "malformed": malformed, "bad_kinds": bad_kinds, "steps": steps}
 
 
 def demote(x, is_key):
@@ -590,6 +642,119 @@ def run(ctx):
             continue
         raw.append(r[0])
         cases.append(r[1])
+
+    # ---- fixed corpus case: identity entry on a compound key + a key inside it ----
+    r = observe(gen.fixed_identity_case())
+    if r is not None:
+        if r[0]["observed"] != "((b0 and pb) or b1(a0))":
+            ctx.fail("oracle", "corpus case {(a & b): (a & b), a: c} on (a & b) | a returned %s" % r[0]["observed"],
+                     ["c13", "corpus:identity-entry"], r[0], True)
+        raw.append(r[0])
+        cases.append(r[1])
+
+    # ---- histories on the shared env.substituter: the SAME dict object, mutated in place between calls ----
+    import random as _random
+    from unified_planning.model.walkers import Substituter
+
+    def outcome_sig(f):
+        try:
+            return ("ok", ser_expr(f(), Names()))
+        except BaseException as ex:
+            return ("exc", type(ex).__name__, str(ex))
+
+    n_hist = 30 if ctx.quick else 200
+    hist_done = 0
+    for _h in range(4 * n_hist):
+        if hist_done >= n_hist:
+            break
+        w = gen.world()
+        state, nv0 = rng.getstate(), w.nvars
+        c = gen.case(False, w=w, history=True)
+        if c is None:
+            continue
+
+        def replica():
+            r2 = _random.Random()
+            r2.setstate(state)
+            g2 = Gen(r2, World)
+            g2.depths = gen.depths
+            w2 = World(r2)
+            w2.nvars = nv0
+            return g2.case(False, w=w2, history=True)
+
+        hist_done += 1
+        dist["history_sequences"] += 1
+        e, em, sub = c["e"], w.em, w.env.substituter
+        d = dict(c["entries"])                       # the one dict object used for the whole sequence
+        for ci, (what, j, val, via_walker) in enumerate(c["steps"]):
+            kj = c["entries"][j][0]
+            d[kj] = val                              # in place, size unchanged
+            content = list(d.items())
+            dist["history_calls"] += 1
+            dist["history_call:" + what.split(":")[0]] += 1
+            tags = ["c13", "history", "same-dict-mutated", "step:" + what.split(":")[0],
+                    "via:" + ("env.substituter.substitute" if via_walker else "FNode.substitute")]
+            rec = {"e": str(e), "call": ci, "step": what, "via": tags[-1], "map_now": [(str(k), str(v)) for k, v in content],
+                   "history": [(a, str(c["entries"][b][0]), str(v)) for a, b, v, _ in c["steps"][:ci + 1]], "malformed": what.startswith("incompatible"),
+                   "tags": tags}
+            n_nodes = len(em.expressions)
+            if via_walker:
+                got = outcome_sig(lambda: sub.substitute(e, d))
+            else:
+                got = outcome_sig(lambda: e.substitute(d))
+            c2 = replica()
+            if c2 is None or ser_expr(c2["e"], Names()) != ser_expr(e, Names()):
+                ctx.fail("harness", "history replica in a fresh Environment is not the same case", ["c13", "replica-differs"], rec, False)
+                break
+            d2 = dict(c2["entries"])
+            for (_a, jj, vv, _v) in c2["steps"][:ci + 1]:
+                d2[c2["entries"][jj][0]] = vv
+            fresh_env = outcome_sig(lambda: c2["e"].substitute(dict(d2)))
+            fresh_walker = outcome_sig(lambda: Substituter(w.env).substitute(e, dict(content)))
+            rec["observed"], rec["fresh_environment"], rec["fresh_walker_fresh_dict"] = got, fresh_env, fresh_walker
+            if got != fresh_env or got != fresh_walker:
+                direct_failures += 1
+                ctx.fail("oracle", "call #%d on the same dict object (mutated in place: %s) answers %s; the same call on a fresh Environment "
+                         "answers %s, on a fresh walker and dict %s" % (ci, what, got[:2], fresh_env[:2], fresh_walker[:2]), tags + ["history-dependent"], rec, True)
+                continue
+            if what.startswith("incompatible"):
+                if got[0] != "exc" or got[1] != "UPTypeError":
+                    direct_failures += 1
+                    ctx.fail("oracle", "in-place change to an incompatible value was not rejected with UPTypeError: %s" % (got[:2],),
+                             tags + ["incompatible-map-accepted"], rec, True)
+                    continue
+                if len(em.expressions) != n_nodes or sub.memoization or sub.stack:
+                    direct_failures += 1
+                    ctx.fail("oracle", "rejecting the in-place changed map changed something", tags + ["rejection-not-clean"], rec, True)
+                    continue
+                idx = [i for i, (k, v) in enumerate(content)
+                       if got[2] == "The expression type of %s is not compatible with the given substitution %s" % (str(k), str(v))]
+                if not idx:
+                    ctx.fail("corr", "UPTypeError message names no entry of the map: %s" % got[2], tags + ["error-names-no-entry"], rec, False)
+                    continue
+                obs, pyspec, cf = "TypeErr %s" % gnat(idx[0]), "None", True
+                names = Names()
+                for f in w.ifuns:
+                    names.ifun(f)
+            else:
+                if got[0] == "exc":
+                    dist["result_not_constructible:" + got[1]] += 1       # same exception everywhere: no result exists
+                    continue
+                names = Names()
+                for f in w.ifuns:
+                    names.ifun(f)
+                res = e.substitute(dict(content))
+                spec = topdown(em, e, dict(content))
+                if res != spec:
+                    direct_failures += 1
+                    ctx.fail("oracle", "history call: result %s != top-down replacement %s" % (res, spec), tags + ["result!=topdown"], rec, True)
+                    continue
+                obs, pyspec, cf = "Done %s" % ser_expr(res, names), "(Some %s)" % ser_expr(spec, names), capture_free(e, dict(content))
+            gmap = glist(["(%s, %s, %s, %s)" % (ser_expr(k, names), ser_expr(v, names), ser_ty(k.type, names), ser_ty(v.type, names))
+                          for k, v in content])
+            raw.append(rec)
+            cases.append("{| c_e := %s; c_map := %s; c_obs := %s; c_pyspec := %s; c_cfree := %s; c_interps := [] |}" % (
+                ser_expr(e, names), gmap, obs, pyspec, gbool(cf)))
 
     # ---- Coq: model + specification + evaluation statements on every case ----
     shard = 60
